@@ -213,7 +213,9 @@ static void check_saved(const phosg::Image& img, const Pix& pix, int via, int sa
       exc = e.what();
     }
     if (cw != 8) {
-      VCHECK(threw, cat("wide-save-not-rejected:", fmt_name(f)), "saving ", tag, " as ", fmt_name(f), " did not throw runtime_error");
+      // BMP is stated for 8-bit channels only and PNG for no particular width: whether an image with wider channels is refused (as in
+      // /repo) or exported is not part of the statement. Neither outcome is judged here (the in-harness decoders read 8-bit files).
+      ctx().cls(cat(threw ? "wide-save-refused:" : "wide-save-exported:", fmt_name(f)));
       continue;
     }
     if (!full_range) {
